@@ -425,6 +425,12 @@ pub fn invariants(snap: &Snap, model: Option<&Model>) -> Vec<Diff> {
 }
 
 pub fn compare(snap: &Snap, m: &Model) -> Vec<Diff> {
+    compare_skipping(snap, m, &[])
+}
+
+/// `unsettled`: streams whose content is being written through a live,
+/// unflushed handle; what a reader sees of them meanwhile is unspecified.
+pub fn compare_skipping(snap: &Snap, m: &Model, unsettled: &[(usize, String)]) -> Vec<Diff> {
     let mut out = Vec::new();
     if snap.ptype != m.ptype {
         out.push(Diff { area: Area::Meta, msg: format!("package type {:?}, expected {:?}", snap.ptype, m.ptype) });
@@ -514,6 +520,7 @@ pub fn compare(snap: &Snap, m: &Model) -> Vec<Diff> {
                     });
                 }
                 match snap.streams.get(n) {
+                    _ if unsettled.contains(&key) => {}
                     Some(Ok(data)) => {
                         if data != &sm.data {
                             let at = data.iter().zip(sm.data.iter()).position(|(a, b)| a != b);
